@@ -13,7 +13,6 @@ before/after; Trace_Options.tla validates every row."""
 import json
 import os
 import re
-import threading
 from concurrent.futures import ThreadPoolExecutor
 
 import vf
@@ -80,7 +79,7 @@ class _Jobs:
     def submit(self, kind, module, cfg, name, **kw):
         def job():
             env = kw.get("env")
-            jvm = vf.TRACE_JVM if kind in ("trace", "table", "corrupt") else ()
+            jvm = vf.TRACE_JVM if kind in ("trace", "table", "corrupt") else ("-Xss1g",)   # deep recursive operators
             rc, out, wall = self.ctx._tlc(self.sd, module, cfg, name, kw.get("workers", 1),
                                           kw.get("timeout", 1500), jvm=jvm, env=env,
                                           xmx=kw.get("xmx", "4g"))
@@ -142,7 +141,9 @@ def _rows_result(ctx, name, path, rc, out, wall):
 def run(ctx):
     sd = os.path.join(vf.SPEC, SPEC_DIR)
     quick = ctx.tier == "quick"
-    exe = ctx.build("d_options")
+    # VERIF_C39_EXE: a d_options binary built elsewhere (mutation experiments on a scratch copy of
+    # /repo, so that other people's builds against /repo are not disturbed)
+    exe = os.environ.get("VERIF_C39_EXE") or ctx.build("d_options")
 
     # ---------------------------------------------------------------- the real code
     maxlen = 4 if quick else 5
@@ -245,7 +246,8 @@ def run(ctx):
                                           "wall_s": round(wall, 1), "rejected_rows": len(bad)})
     if not quick:
         # the whole corpus of the option-table state machine: one 4-worker run on its own
-        rc, o2, wall = ctx._tlc(sd, "OptionsSetMC.tla", "MC_OptionsSet_t.cfg", "MC_OptionsSet_t", 4, 2400, xmx="6g")
+        rc, o2, wall = ctx._tlc(sd, "OptionsSetMC.tla", "MC_OptionsSet_t.cfg", "MC_OptionsSet_t", 4, 2400,
+                                jvm=("-Xss1g",), xmx="6g")
         _mc_result(ctx, "MC_OptionsSet_t", rc, o2, wall, False)
 
     # ---------------------------------------------------------------- findings
